@@ -487,6 +487,13 @@ class FGen:
                 cands = [u for u, t in persist["uts"].items() if t == tid]
                 locs = LOCALS_OF[tid]
                 lhs = rng.choice(cands) if cands and rng.random() < 0.35 else rng.choice(locs)
+                same_t = [u for u, t in sc["uts"].items() if t == tid]
+                if sc["uts"].get(lhs) == tid and rng.random() < 0.1:
+                    # a tableau-driven update with a vanishing weight, 'u <- u + 0*k': the builder's flattening
+                    # leaves the plain self-copy 'u <- u'
+                    ops.append(["assign", lhs, None, ["+", ["var", lhs], ["*", ["num", 0], ["var", rng.choice(same_t)]]],
+                                [], 0])
+                    continue
                 if rhs == ["var", lhs]:
                     continue
                 if rhs[0] == "call":
